@@ -317,6 +317,33 @@ def walk_syntactic(E):
                            "only then follows symlinks among the (consumer-pruned) dirs", ok, props=('C14', 'C15'))
 
 
+def walk_yield(E, st, x):
+    """at `yield (dirpath, dirs, files)`: what the consumer is handed for this directory"""
+    for n, text in enumerate(WALK_YIELD_SITE):
+        E.oblige(st, 'callsite', 'yield:%d' % n, text, E.ev_spec(text, st), None)
+    return E.ok(st)
+
+
+WALK_YIELD_SITE = [
+    # sorted by name, whatever order the file system enumerated (discovery order == sorted path order)
+    "forall(a, Int, forall(b, Int, implies(0 <= a and a < b and b < len(dirs), not lt_str(dirs[b], dirs[a]))))",
+    "forall(a, Int, forall(b, Int, implies(0 <= a and a < b and b < len(files), not lt_str(files[b], files[a]))))",
+    # exactly the sub-directories that are not ignored; every file of the directory, none invented
+    "forall(x, Str, iff(x in dirs, x in old(dirs) and x not in options.ignore_dir))",
+    "forall(x, Str, iff(x in files, x in old(files)))", "len(files) == old(len(files))",
+]
+# the per-directory part of walk_with_symlinks (the body of its os.walk loop up to the yield), as a fragment: os.walk's
+# enumeration and its honouring of in-place pruning stay assumed, what the function itself does to one directory is proved
+WALK_DIR = {
+    'property': ['C14', 'C15'],
+    'fragment': {'find': 'dirs.sort(', 'count': 4, 'heads': ['dirs.sort(', 'files.sort(', 'dirs[:] = ', 'yield ']},
+    'params': {'options': 'Rec[WalkOptions]', 'dirpath': 'Str', 'dirs': 'List[Str]', 'files': 'List[Str]'},
+    'yield_handler': walk_yield,
+    'requires': [], 'modifies': ['dirs', 'files'],
+    'ensures': [], 'raises': {},
+}
+
+
 def inner_files_rule(E, st, node, args, kws, k):
     from pyvc.state import fresh_val
     L = fresh_val(('list', ('tuple', (('obj', 'Str'), ('obj', 'Str')))), 'inner_files', st)
@@ -397,5 +424,7 @@ def register(E):
     E.add_contract('find.test_dirs', TEST_DIRS)
     E.add_contract('options.get_options@prefix', PREFIX_SORT)
     E.add_contract('find.find_test_files_', FILES_)
+    E.records['WalkOptions'] = {'ignore_dir': 'Set[Str]'}
+    E.add_contract('find.walk_with_symlinks', WALK_DIR)
     E.add_contract('find.find_test_files', FIND_FILES)
     E.add_contract('find.find_suites', FIND_SUITES)
